@@ -526,7 +526,7 @@ func (s *StateDB) Commit() error {
 	if s.writeToCommitCtxFromCacheCtx != nil {
 		s.writeToCommitCtxFromCacheCtx()
 	}
-	return s.commitCtx(s.GetEvmTxContext())
+	return s.commitCtx(s.GetEvmTxContext(), true)
 }
 
 // CommitCacheCtx is identical to [StateDB.Commit], except it:
@@ -536,13 +536,20 @@ func (s *StateDB) Commit() error {
 // is only finalized when [Commit] is called, not when [CommitCacheCtx] is
 // called.
 func (s *StateDB) CommitCacheCtx() error {
-	return s.commitCtx(s.cacheCtx)
+	return s.commitCtx(s.cacheCtx, false)
 }
 
 // commitCtx writes the dirty journal state changes to the EVM Keeper. The
 // StateDB object cannot be reused after [commitCtx] has completed. A new
 // object needs to be created from the EVM.
-func (s *StateDB) commitCtx(ctx sdk.Context) error {
+//
+// final: False for the intermediate commit to the cache context that precedes a
+// precompile call. That commit is undone when the call frame is reverted (see
+// [PrecompileCalled.Revert]), so it must not mark storage as committed.
+func (s *StateDB) commitCtx(ctx sdk.Context, final bool) error {
+	// Dirty storage that equals the origin storage is already in the store,
+	// unless another value has been written through a cache context.
+	skipUnchanged := final && s.writeToCommitCtxFromCacheCtx == nil
 	for _, addr := range s.Journal.sortedDirties() {
 		obj := s.getStateObject(addr)
 		if obj == nil {
@@ -556,7 +563,11 @@ func (s *StateDB) commitCtx(ctx sdk.Context) error {
 			if err := s.keeper.DeleteAccount(ctx, obj.Address()); err != nil {
 				return errorf("failed to delete account: %w", err)
 			}
-			delete(s.stateObjects, addr)
+			// The object stays cached until the final commit: reverting the
+			// call frame must be able to bring the account back.
+			if final {
+				delete(s.stateObjects, addr)
+			}
 		} else {
 			if obj.code != nil && obj.DirtyCode {
 				s.keeper.SetCode(ctx, obj.CodeHash(), obj.code)
@@ -567,15 +578,16 @@ func (s *StateDB) commitCtx(ctx sdk.Context) error {
 			for _, key := range obj.DirtyStorage.SortedKeys() {
 				dirtyVal := obj.DirtyStorage[key]
 				// Values that match origin storage are not dirty.
-				if dirtyVal == obj.OriginStorage[key] {
+				if skipUnchanged && dirtyVal == obj.OriginStorage[key] {
 					continue
 				}
 				// Persist committed changes
 				s.keeper.SetState(ctx, obj.Address(), key, dirtyVal.Bytes())
-				obj.OriginStorage[key] = dirtyVal
+				if final {
+					obj.OriginStorage[key] = dirtyVal
+				}
 			}
 		}
-		// TODO: UD-DEBUG: Assume clean to pretend for tests
 		// Reset the dirty count to 0 because all state changes for this dirtied
 		// address in the journal have been committed.
 		s.Journal.dirties[addr] = 0
@@ -589,9 +601,19 @@ func (s *StateDB) CacheCtxForPrecompile() (
 	if s.writeToCommitCtxFromCacheCtx == nil {
 		s.cacheCtx, s.writeToCommitCtxFromCacheCtx = s.evmTxCtx.CacheContext()
 	}
+	cachedObjects := make(map[common.Address]struct{}, len(s.stateObjects))
+	for addr := range s.stateObjects {
+		cachedObjects[addr] = struct{}{}
+	}
+	dirties := make(map[common.Address]int, len(s.Journal.dirties))
+	for addr, count := range s.Journal.dirties {
+		dirties[addr] = count
+	}
 	return s.cacheCtx, PrecompileCalled{
-		MultiStore: s.cacheCtx.MultiStore().(store.CacheMultiStore).Copy(),
-		Events:     s.cacheCtx.EventManager().Events(),
+		MultiStore:    s.cacheCtx.MultiStore().(store.CacheMultiStore).Copy(),
+		Events:        s.cacheCtx.EventManager().Events(),
+		cachedObjects: cachedObjects,
+		dirties:       dirties,
 	}
 }
 
